@@ -750,14 +750,31 @@ Proof.
   simpl in *. split; [|exact H2]. exists v. simpl. rewrite Hc. repeat split; auto.
 Qed.
 
+Lemma sess_down_ok : forall s,
+  (sess_idle s -> sess_idle (fst (sess_down repaired s))) /\
+  (sess_inv s -> sess_inv (fst (sess_down repaired s)) /\
+                 (s_addr s <> None -> s_addr (fst (sess_down repaired s)) <> None)).
+Proof.
+  intros s. unfold sess_down. destruct (s_owner s); [|split; auto].
+  split.
+  - intros (H1 & H2 & H3). unfold sess_idle, sess_fsm_only. rewrite H1, H2, H3. simpl. auto.
+  - intros H. apply sess_fsm_only_inv; auto.
+Qed.
+
 Lemma sess_reauth_ok : forall s aaa orc, sess_ok s -> sess_ok (fst (sess_step repaired s (EvReauth aaa orc))).
 Proof.
   intros s aaa orc H. cbn [sess_step].
-  set (addr := match extract_ip repaired aaa with Some x => Some x | None => s_addr s end).
-  destruct (start_ncp_spec (s_owner s) (s_cfg s) (s_fsm s) (s_peer s) addr (s_open s) (s_lastreq s) orc)
-    as [(v & Hv & Hl & Hz & Ha & Hp)|(E1 & E2 & E3 & E4 & E5)].
+  destruct (sess_down repaired s) as [s1 a1] eqn:D.
+  assert (H1 : sess_ok s1).
+  { pose proof (sess_down_ok s) as [A B]. rewrite D in A, B. simpl in A, B.
+    destruct H as [H|H]; [left; auto|right; apply B; auto]. }
+  set (addr := match extract_ip repaired aaa with Some x => Some x | None => s_addr s1 end).
+  pose proof (start_ncp_spec (s_owner s1) (s_cfg s1) (s_fsm s1) (s_peer s1) addr (s_open s1) (s_lastreq s1) orc) as SP.
+  destruct (start_ncp repaired (s_owner s1) (s_cfg s1) (s_fsm s1) (s_peer s1) addr (s_open s1) (s_lastreq s1) orc)
+    as [s2 a2]. simpl in *.
+  destruct SP as [(v & Hv & Hl & Hz & Ha & Hp)|(E1 & E2 & E3 & E4 & E5)].
   - right. exists v. repeat split; auto.
-  - destruct H as [(I1 & I2 & I3)|(v & Hv & Hl & Hz & Ha & Hp)].
+  - destruct H1 as [(I1 & I2 & I3)|(v & Hv & Hl & Hz & Ha & Hp)].
     + left. unfold sess_idle. rewrite E2, E4, E5. auto.
     + right. exists v. rewrite E1, E3, E4. repeat split; auto.
 Qed.
@@ -766,10 +783,11 @@ Lemma sess_step_inv : forall s e, is_reauth_b e = false -> sess_inv s ->
   sess_inv (fst (sess_step repaired s e)) /\
   (s_addr s <> None -> s_addr (fst (sess_step repaired s e)) <> None).
 Proof.
-  intros s e Hre Hinv. destruct e as [id wire| |w|w|w| |tid| |aaa orc]; [| | | | | | | |discriminate];
+  intros s e Hre Hinv. destruct e as [id wire| |w|w|w| |tid| | |aaa orc]; [| | | | | | | | |discriminate];
     cbn [sess_step];
     try (apply sess_fsm_only_inv; [exact Hinv|]; try reflexivity; apply ipcp_learn_assigned);
-    try (split; [exact Hinv|auto]).
+    try (split; [exact Hinv|auto]);
+    try (apply (proj2 (sess_down_ok s)); exact Hinv).
   pose proof (usable_assigned_of_inv s Hinv) as Hu.
   destruct Hinv as (v & Hv & Hl & Hz & Ha & Hp).
   assert (Hto : to4o (ic_assigned (s_cfg s)) = Some v).
@@ -796,8 +814,9 @@ Lemma sess_step_idle : forall fl s e, is_reauth_b e = false -> sess_idle s ->
   sess_idle (fst (sess_step fl s e)) /\ snd (sess_step fl s e) = [].
 Proof.
   intros fl s e Hre (H1 & H2 & H3). unfold sess_idle.
-  destruct e as [id wire| |w|w|w| |tid| |aaa orc]; [| | | | | | | |discriminate]; cbn [sess_step];
-    unfold sess_fsm_only; rewrite ?H1, ?H2, ?H3; try (simpl; auto; fail).
+  destruct e as [id wire| |w|w|w| |tid| | |aaa orc]; [| | | | | | | | |discriminate]; cbn [sess_step];
+    unfold sess_down, sess_fsm_only; rewrite ?H1, ?H2, ?H3; try (simpl; auto; fail);
+    try (destruct (s_owner s); simpl; rewrite ?H1, ?H2, ?H3; simpl; auto; fail).
   unfold ipcp_input. destruct (parse_wire wire); simpl; auto.
   destruct (ipcp_req (s_cfg s) (s_peer s) a) as [r p']. simpl. auto.
 Qed.
@@ -822,24 +841,28 @@ Definition sess_ok2 (s : sess) : Prop := sess_idle s \/ (sess_inv s /\ s_addr s 
 Lemma sess_step_ok2 : forall s e, no_conflict e = true -> sess_ok2 s -> sess_ok2 (fst (sess_step repaired s e)).
 Proof.
   intros s e Hnc H. destruct (is_reauth_b e) eqn:Hre.
-  - destruct e as [? ?| |?|?|?| |?| |aaa orc]; try discriminate. simpl in Hnc. cbn [sess_step].
-    set (addr := match extract_ip repaired aaa with Some x => Some x | None => s_addr s end).
-    pose proof (sess_reauth_ok s aaa orc) as Hok. cbn [sess_step] in Hok. fold addr in Hok.
-    destruct (start_ncp_spec (s_owner s) (s_cfg s) (s_fsm s) (s_peer s) addr (s_open s) (s_lastreq s) orc)
-      as [(v & Hv & Hl & Hz & (a & Ha & Hto) & Hp)|(E1 & E2 & E3 & E4 & E5)].
+  - destruct e as [? ?| |?|?|?| |?| | |aaa orc]; try discriminate. simpl in Hnc. cbn [sess_step].
+    destruct (sess_down repaired s) as [s1 a1] eqn:D.
+    assert (H1 : sess_ok2 s1).
+    { pose proof (sess_down_ok s) as [A B]. rewrite D in A, B. simpl in A, B.
+      destruct H as [H|[H Hne]]; [left; auto|right; destruct (B H); auto]. }
+    set (addr := match extract_ip repaired aaa with Some x => Some x | None => s_addr s1 end).
+    pose proof (start_ncp_spec (s_owner s1) (s_cfg s1) (s_fsm s1) (s_peer s1) addr (s_open s1) (s_lastreq s1) orc) as SP.
+    destruct (start_ncp repaired (s_owner s1) (s_cfg s1) (s_fsm s1) (s_peer s1) addr (s_open s1) (s_lastreq s1) orc)
+      as [s2 a2] eqn:SN. simpl in *.
+    destruct SP as [(v & Hv & Hl & Hz & (a & Ha & Hto) & Hp)|(E1 & E2 & E3 & E4 & E5)].
     + right. split; [exists v; repeat split; auto; right; exists a; auto|rewrite Ha; discriminate].
-    + destruct H as [(I1 & I2 & I3)|(Hinv & Hne)].
+    + destruct H1 as [(I1 & I2 & I3)|(Hinv & Hne)].
       * left. unfold sess_idle. rewrite E2, E4, E5. auto.
-      * exfalso. (* a started session with an address and no conflict keeps a usable address *)
-        destruct Hinv as (v & Hv & Hl & Hz & Ha & Hp).
+      * exfalso. destruct Hinv as (v & Hv & Hl & Hz & Ha & Hp).
         destruct Ha as [Ha|(a0 & Ha0 & Hto0)]; [contradiction|].
         assert (Hu : usable addr = true).
         { unfold addr. destruct (extract_ip repaired aaa) eqn:E; [eapply extract_repaired_usable; eauto|].
           rewrite Ha0. simpl. rewrite Hto0, Hz. reflexivity. }
         destruct addr as [x|] eqn:Ea; [|discriminate].
-        revert E4. unfold start_ncp. cbn [f_always repaired]. rewrite orb_false_r.
-        destruct (s_owner s); rewrite ?Hnc, Hu; unfold ipcp_set_peer; destruct (up_open (s_fsm s));
-          simpl; discriminate.
+        revert SN. unfold start_ncp. cbn [f_always repaired]. rewrite orb_false_r.
+        destruct (s_owner s1); rewrite ?Hnc, Hu; unfold ipcp_set_peer; destruct (up_open (s_fsm s1));
+          intros SN; inversion SN; subst; simpl in E4; discriminate.
   - assert (Hre' : is_reauth_b e = false) by exact Hre.
     destruct H as [H|(H & Hne)]; [left; apply sess_step_idle; auto|right].
     destruct (sess_step_inv s e Hre' H) as [A B]. split; auto.
@@ -870,8 +893,9 @@ Proof.
   assert (F : forall c' r, ic_assigned c' = ic_assigned (s_cfg s) ->
               ic_assigned (s_cfg (fst (sess_fsm_only fl s c' r))) = ic_assigned (s_cfg s)).
   { intros c' [a st'] Hc. unfold sess_fsm_only. destruct (fold_left _ _ _). simpl. exact Hc. }
-  destruct e as [id wire| |w|w|w| |tid| |aaa orc]; [| | | | | | | |discriminate]; cbn [sess_step];
-    try (apply F; try reflexivity; apply ipcp_learn_assigned); try reflexivity.
+  destruct e as [id wire| |w|w|w| |tid| | |aaa orc]; [| | | | | | | | |discriminate]; cbn [sess_step];
+    try (apply F; try reflexivity; apply ipcp_learn_assigned); try reflexivity;
+    try (unfold sess_down; destruct (s_owner s); [apply F|]; reflexivity).
   unfold ipcp_input. destruct (parse_wire wire); simpl; auto.
   destruct (ipcp_req _ _ _). destruct (rcr_event _ _ _). destruct (fold_left _ _ _). reflexivity.
 Qed.
@@ -1450,10 +1474,294 @@ Lemma iobj_fresh_remembered : forall c ops x,
   ipcp_kind (io_cfg (iobj_run repaired (mkiobj c ipeer0) ops)) (mkopt 3 x) = KAck.
 Proof. intros c ops. apply iobj_run_remembered. intros x H. discriminate. Qed.
 
+(* ------------------------------------------------------------------ restored sessions *)
+Lemma sess_restore_ok : forall addr d1 d2, sess_ok (sess_restore repaired addr d1 d2).
+Proof.
+  intros addr d1 d2. unfold sess_restore. cbn [f_restore f_rguard repaired orb].
+  destruct (usable (Some addr)) eqn:Hu.
+  - right. destruct (usable_spec _ Hu) as (v & Hv & Hl & Hz). simpl in Hv.
+    exists v. simpl. rewrite Hv. repeat split; auto. right. exists addr. auto.
+  - left. repeat split.
+Qed.
+
+Lemma restored_adopts_only_assigned : forall addr d1 d2 es,
+  let s := sess_run repaired (sess_restore repaired addr d1 d2) es in
+  (s_fsm s = 0%N /\ s_addr s = None /\ s_open s = false) \/
+  (usable (ic_assigned (s_cfg s)) = true /\
+   (s_addr s = None \/ to4o (s_addr s) = ic_assigned (s_cfg s)) /\
+   (pp_addr (s_peer s) = None \/ pp_addr (s_peer s) = ic_assigned (s_cfg s))).
+Proof.
+  intros addr d1 d2 es s.
+  pose proof (sess_run_ok es _ (sess_restore_ok addr d1 d2)) as H. fold s in H.
+  destruct H as [H|H]; [left; exact H|right].
+  split; [apply usable_assigned_of_inv; exact H|].
+  destruct H as (v & Hv & _ & _ & Ha & Hp). rewrite Hv. split; [|exact Hp].
+  destruct Ha as [Ha|(a & Ha & Hto)]; [left; exact Ha|right; rewrite Ha; exact Hto].
+Qed.
+
+Lemma restored_assigned : forall addr d1 d2, usable (Some addr) = true ->
+  ic_assigned (s_cfg (sess_restore repaired addr d1 d2)) = to4 addr /\
+  s_fsm (sess_restore repaired addr d1 d2) = 9%N.
+Proof. intros addr d1 d2 Hu. unfold sess_restore. cbn [f_restore f_rguard repaired orb]. rewrite Hu. auto. Qed.
+
+(* ------------------------------------------------------------------ the session trace *)
+Definition no_sca (acts : list act) : Prop := forall id os, ~ In (Sca id os) acts.
+
+Ltac split_matches :=
+  repeat match goal with |- context [match ?x with _ => _ end] => destruct x end.
+
+Lemma no_sca_rca : forall st i, no_sca (fst (rca_event st i)).
+Proof. intros st i id os. unfold rca_event. split_matches; simpl; intuition congruence. Qed.
+Lemma no_sca_rcn : forall st i, no_sca (fst (rcn_event st i)).
+Proof. intros st i id os. unfold rcn_event. split_matches; simpl; intuition congruence. Qed.
+Lemma no_sca_rtr : forall st i, no_sca (fst (rtr_event st i)).
+Proof. intros st i id os. unfold rtr_event. split_matches; simpl; intuition congruence. Qed.
+Lemma no_sca_down : forall st, no_sca (fst (down_event st)).
+Proof. intros st id os. unfold down_event. split_matches; simpl; intuition congruence. Qed.
+Lemma no_sca_up_open : forall st, no_sca (fst (up_open st)).
+Proof. intros st id os. unfold up_open. split_matches; simpl; intuition congruence. Qed.
+
+Lemma sess_fsm_only_acts : forall fl s c r, snd (sess_fsm_only fl s c r) = fst r.
+Proof. intros fl s c [a st]. unfold sess_fsm_only. destruct (fold_left _ _ _). reflexivity. Qed.
+
+Lemma sess_down_no_sca : forall fl s, no_sca (snd (sess_down fl s)).
+Proof.
+  intros fl s. unfold sess_down. destruct (s_owner s); [|intros id os []].
+  rewrite sess_fsm_only_acts. apply no_sca_down.
+Qed.
+
+Lemma start_ncp_no_sca : forall fl ow c st p addr op last orc,
+  no_sca (snd (start_ncp fl ow c st p addr op last orc)).
+Proof.
+  intros. unfold start_ncp. destruct (usable _ || f_always fl); [|intros id os []].
+  destruct (match ow, _ with LNS, None => _ | _, _ => _ end). destruct (up_open st) as [a st'] eqn:E.
+  simpl. pose proof (no_sca_up_open st) as H. rewrite E in H. exact H.
+Qed.
+
+(* every Configure-Ack a session ever emits carries nothing but the assignment in force *)
+Lemma sess_step_acks_only_assigned : forall s e id os,
+  sess_ok s -> In (Sca id os) (snd (sess_step repaired s e)) ->
+  exists v, ic_assigned (s_cfg s) = Some v /\ usable (ic_assigned (s_cfg s)) = true /\
+            (forall o, In o os -> o_type o = 3%N -> o_data o = v) /\
+            (forall o, In o os -> length (o_data o) = 4%nat /\
+                                  (o_type o = 3%N \/ o_type o = 129%N \/ o_type o = 131%N)).
+Proof.
+  intros s e id os Hok Hin.
+  destruct e as [rid wire| |w|w|w| |tid| | |aaa orc]; cbn [sess_step] in Hin;
+    try (rewrite sess_fsm_only_acts in Hin; exfalso;
+         first [eapply no_sca_rca; exact Hin | eapply no_sca_rcn; exact Hin | eapply no_sca_rtr; exact Hin]).
+  - destruct Hok as [Hidle|Hinv].
+    + destruct (sess_step_idle repaired s (EvReq rid wire) eq_refl Hidle) as [_ E].
+      cbn [sess_step] in E. rewrite E in Hin. contradiction.
+    + pose proof (usable_assigned_of_inv s Hinv) as Hu.
+      destruct Hinv as (v & Hv & Hl & Hz & _).
+      assert (Hto : to4o (ic_assigned (s_cfg s)) = Some v) by (rewrite Hv; simpl; apply to4_of_len4; auto).
+      destruct (ipcp_input (s_cfg s) (s_fsm s) (s_peer s) rid wire) as [[a st'] p'] eqn:E.
+      destruct (fold_left (on_act repaired p') a (s_addr s, s_open s)). simpl in Hin.
+      destruct (ipcp_wire_ack _ _ _ _ _ _ _ _ _ _ v Hu Hto E Hin) as (_ & _ & A & B).
+      exists v. auto.
+  - simpl in Hin. contradiction.
+  - rewrite sess_fsm_only_acts in Hin. exfalso. destruct (N.eqb (s_fsm s) 5); simpl in Hin; contradiction.
+  - exfalso. eapply sess_down_no_sca; exact Hin.
+  - exfalso. destruct (sess_down repaired s) as [s1 a1] eqn:D.
+    destruct (start_ncp repaired (s_owner s1) (s_cfg s1) (s_fsm s1) (s_peer s1) _ (s_open s1) (s_lastreq s1) orc)
+      as [s2 a2] eqn:SN.
+    simpl in Hin. apply in_app_or in Hin. destruct Hin as [Hin|Hin].
+    + pose proof (sess_down_no_sca repaired s) as H. rewrite D in H. eapply H; exact Hin.
+    + pose proof (start_ncp_no_sca repaired (s_owner s1) (s_cfg s1) (s_fsm s1) (s_peer s1)
+                    (match extract_ip repaired aaa with Some x => Some x | None => s_addr s1 end)
+                    (s_open s1) (s_lastreq s1) orc) as H.
+      rewrite SN in H. eapply H; exact Hin.
+Qed.
+
+Lemma session_acks_only_assigned : forall s0 es e id os,
+  sess_ok s0 ->
+  let s := sess_run repaired s0 es in
+  In (Sca id os) (snd (sess_step repaired s e)) ->
+  exists v, ic_assigned (s_cfg s) = Some v /\ usable (ic_assigned (s_cfg s)) = true /\
+            (forall o, In o os -> o_type o = 3%N -> o_data o = v) /\
+            (forall o, In o os -> length (o_data o) = 4%nat /\
+                                  (o_type o = 3%N \/ o_type o = 129%N \/ o_type o = 131%N)).
+Proof. intros s0 es e id os H0 s. apply sess_step_acks_only_assigned. apply sess_run_ok. exact H0. Qed.
+
+(* ------------------------------------------------------------------ open sessions have the assigned address *)
+Definition tr_ok (st : N) (r : list act * N) : Prop :=
+  ((st <= 9)%N -> (snd r <= 9)%N) /\
+  (st = 0%N \/ st = 1%N -> snd r = st) /\
+  (forall op, (op = true -> st = 9%N) -> v6_open (fst r) op = true -> snd r = 9%N).
+
+Ltac tr_brute :=
+  unfold tr_ok; split_matches; cbn [fst snd v6_open fold_left];
+  (split; [|split]); intros; try lia; try reflexivity;
+  repeat match goal with
+  | H : _ \/ _ |- _ => destruct H
+  | H : ?a = true -> _ |- _ => first [specialize (H eq_refl) | clear H]
+  end; try discriminate; try lia; try congruence.
+
+Lemma tr_rca : forall st i, tr_ok st (rca_event st i).
+Proof. intros st i. unfold rca_event. tr_brute. Qed.
+Lemma tr_rcn : forall st i, tr_ok st (rcn_event st i).
+Proof. intros st i. unfold rcn_event. tr_brute. Qed.
+Lemma tr_rtr : forall st i, tr_ok st (rtr_event st i).
+Proof. intros st i. unfold rtr_event. tr_brute. Qed.
+Lemma tr_down : forall st, tr_ok st (down_event st).
+Proof. intros st. unfold down_event. tr_brute. Qed.
+Lemma tr_rcr : forall st i r, tr_ok st (rcr_event st i r).
+Proof. intros st i r. unfold rcr_event, reply. tr_brute. Qed.
+Lemma tr_timeout : forall st, tr_ok st (if N.eqb st 5 then ([], 3%N) else ([], st)).
+Proof.
+  intros st. unfold tr_ok. destruct (N.eqb_spec st 5); simpl; (split; [|split]); intros; try lia;
+    repeat match goal with H : _ \/ _ |- _ => destruct H end; try lia; try congruence; auto;
+    try (match goal with H1 : ?o = true -> _, H2 : v6_open [] ?o = true |- _ => specialize (H1 H2) end; lia).
+Qed.
+
+Lemma on_act_open : forall fl p acts ad op, snd (fold_left (on_act fl p) acts (ad, op)) = v6_open acts op.
+Proof.
+  intros fl p acts. unfold v6_open. induction acts as [|a acts IH]; intros ad op; simpl; [reflexivity|].
+  destruct a; simpl; apply IH.
+Qed.
+
+Definition fsm_ok (s : sess) : Prop :=
+  (s_fsm s <= 9)%N /\ (s_open s = true -> s_fsm s = 9%N) /\ (s_addr s = None -> s_fsm s = 0%N \/ s_fsm s = 1%N).
+
+(* the address only ever goes from nil to something (repaired), never back, on subscriber packets *)
+Lemma on_act_addr_none : forall p acts ad op,
+  fst (fold_left (on_act repaired p) acts (ad, op)) = None -> ad = None.
+Proof.
+  intros p acts. induction acts as [|a acts IH]; intros ad op H; simpl in H; [exact H|].
+  destruct (on_act repaired p (ad, op) a) as [ad1 op1] eqn:E. apply IH in H. subst ad1.
+  destruct a; simpl in E; inversion E; subst; auto.
+  destruct (pp_addr p); [discriminate|reflexivity].
+Qed.
+
+Lemma sess_fsm_only_fsm_ok : forall s c r, fsm_ok s -> tr_ok (s_fsm s) r -> fsm_ok (fst (sess_fsm_only repaired s c r)).
+Proof.
+  intros s c [a st'] (F1 & F2 & F3) (T1 & T2 & T3). unfold sess_fsm_only, fsm_ok.
+  destruct (fold_left (on_act repaired (s_peer s)) a (s_addr s, s_open s)) as [ad op] eqn:F. simpl in *.
+  pose proof (on_act_open repaired (s_peer s) a (s_addr s) (s_open s)) as O. rewrite F in O. simpl in O.
+  pose proof (on_act_addr_none (s_peer s) a (s_addr s) (s_open s)) as A. rewrite F in A. simpl in A.
+  split; [auto|]. split.
+  - intros Hop. subst op. eapply T3; eauto.
+  - intros Had. specialize (A Had). specialize (F3 A). rewrite (T2 F3). exact F3.
+Qed.
+
+Lemma up_open_props : forall st, (st <= 9)%N ->
+  (snd (up_open st) <= 9)%N /\ (forall op, (op = true -> st = 9%N) -> op = true -> snd (up_open st) = 9%N).
+Proof.
+  intros st H. unfold up_open. split_matches; simpl; split; intros; try lia;
+    match goal with H1 : ?o = true -> _, H2 : ?o = true |- _ => specialize (H1 H2) end; try lia; try congruence.
+Qed.
+
+Lemma sess_down_fsm_ok : forall s, fsm_ok s -> fsm_ok (fst (sess_down repaired s)).
+Proof.
+  intros s H. unfold sess_down. destruct (s_owner s); [|exact H].
+  apply sess_fsm_only_fsm_ok; auto. apply tr_down.
+Qed.
+
+Lemma sess_down_pppoe_state : forall s, s_owner s = PPPoE -> (s_fsm s <= 9)%N ->
+  (s_fsm (fst (sess_down repaired s)) = 0%N \/ s_fsm (fst (sess_down repaired s)) = 1%N) /\
+  s_owner (fst (sess_down repaired s)) = PPPoE.
+Proof.
+  intros s Ho Hle. unfold sess_down. rewrite Ho. unfold sess_fsm_only.
+  destruct (down_event (s_fsm s)) as [a st'] eqn:E. destruct (fold_left _ _ _). simpl.
+  split; [|exact Ho]. revert E Hle. unfold down_event. split_matches; intros E Hle; inversion E; subst; auto; lia.
+Qed.
+
+Lemma sess_down_owner : forall fl s, s_owner (fst (sess_down fl s)) = s_owner s.
+Proof.
+  intros fl s. unfold sess_down. destruct (s_owner s) eqn:E; [|exact E].
+  unfold sess_fsm_only. destruct (down_event (s_fsm s)). destruct (fold_left _ _ _). exact E.
+Qed.
+
+Lemma sess_step_fsm_ok : forall s e, sess_ok s -> fsm_ok s -> fsm_ok (fst (sess_step repaired s e)).
+Proof.
+  intros s e Hok Hf.
+  destruct e as [rid wire| |w|w|w| |tid| | |aaa orc]; cbn [sess_step];
+    try (apply sess_fsm_only_fsm_ok; [exact Hf|]; first [apply tr_rca|apply tr_rcn|apply tr_rtr|apply tr_timeout]).
+  - (* EvReq *)
+    destruct Hf as (F1 & F2 & F3). unfold ipcp_input.
+    destruct (parse_wire wire) as [os| | |]; try (simpl; unfold fsm_ok; simpl; auto).
+    destruct (ipcp_req (s_cfg s) (s_peer s) os) as [r p'].
+    pose proof (tr_rcr (s_fsm s) rid r) as (T1 & T2 & T3).
+    destruct (rcr_event (s_fsm s) rid r) as [a st'].
+    destruct (fold_left (on_act repaired p') a (s_addr s, s_open s)) as [ad op] eqn:F. simpl in *.
+    pose proof (on_act_open repaired p' a (s_addr s) (s_open s)) as O. rewrite F in O. simpl in O.
+    pose proof (on_act_addr_none p' a (s_addr s) (s_open s)) as A. rewrite F in A. simpl in A.
+    unfold fsm_ok. simpl. split; [auto|]. split.
+    + intros Hop. subst op. eapply T3; eauto.
+    + intros Had. specialize (A Had). specialize (F3 A). rewrite (T2 F3). exact F3.
+  - exact Hf.
+  - apply sess_down_fsm_ok. exact Hf.
+  - (* EvReauth *)
+    destruct (sess_down repaired s) as [s1 a1] eqn:D.
+    assert (Hf1 : fsm_ok s1) by (pose proof (sess_down_fsm_ok s Hf) as X; rewrite D in X; exact X).
+    assert (Hok1 : sess_ok s1).
+    { pose proof (sess_down_ok s) as [A B]. rewrite D in A, B. simpl in A, B.
+      destruct Hok as [H|H]; [left; auto|right; apply B; auto]. }
+    assert (Hown : s_owner s1 = s_owner s) by (pose proof (sess_down_owner repaired s) as X; rewrite D in X; exact X).
+    assert (Hst1 : s_owner s = PPPoE -> s_fsm s1 = 0%N \/ s_fsm s1 = 1%N).
+    { intros Ho. pose proof (sess_down_pppoe_state s Ho (proj1 Hf)) as [X _]. rewrite D in X. exact X. }
+    set (addr := match extract_ip repaired aaa with Some x => Some x | None => s_addr s1 end).
+    destruct Hf1 as (F1 & F2 & F3).
+    unfold start_ncp. cbn [f_always repaired]. rewrite orb_false_r.
+    set (addr1 := match addr with None => or_alloc orc | Some a =>
+                    match s_owner s1 with PPPoE => if or_reserve_ok orc then Some a else None | LNS => Some a end end).
+    destruct (usable addr1) eqn:Hu.
+    + destruct (match s_owner s1, addr1 with LNS, None => _ | _, _ => _ end) as [c1 p1].
+      destruct (up_open_props (s_fsm s1) F1) as [U1 U2].
+      destruct (up_open (s_fsm s1)) as [a st'] eqn:E. simpl in *.
+      unfold fsm_ok. simpl. split; [exact U1|]. split; [intros Hop; eapply U2; eauto|].
+      intros Hn. rewrite Hn in Hu. discriminate.
+    + simpl. unfold fsm_ok. simpl. split; [exact F1|]. split; [exact F2|]. intros _.
+      destruct (s_owner s1) eqn:Eo.
+      * apply Hst1. symmetry. exact Hown.
+      * (* LNS: an unusable address after the registry step means there was none before *)
+        apply F3. destruct Hok1 as [(I1 & I2 & I3)|(v & Hv & Hl & Hz & Ha & Hp)]; [exact I2|].
+        destruct Ha as [Ha|(a0 & Ha0 & Hto0)]; [exact Ha|]. exfalso.
+        assert (Hua : usable addr = true).
+        { unfold addr. destruct (extract_ip repaired aaa) eqn:E; [eapply extract_repaired_usable; eauto|].
+          rewrite Ha0. simpl. rewrite Hto0, Hz. reflexivity. }
+        unfold addr1 in Hu. destruct addr as [x|]; [|discriminate]. rewrite Hua in Hu. discriminate.
+Qed.
+
+Lemma sess_run_fsm_ok : forall es s, sess_ok s -> fsm_ok s -> fsm_ok (sess_run repaired s es).
+Proof.
+  induction es as [|e es IH]; intros s H1 H2; simpl; auto.
+  apply IH; [apply sess_step_ok; exact H1|apply sess_step_fsm_ok; auto].
+Qed.
+
+Lemma sess_start_fsm_ok : forall ow aaa orc, fsm_ok (sess_start repaired ow aaa orc).
+Proof.
+  intros ow aaa orc. unfold sess_start, start_ncp. cbn [f_always repaired]. rewrite orb_false_r.
+  destruct (usable _) eqn:Hu.
+  - destruct (match ow, _ with LNS, None => _ | _, _ => _ end). simpl. unfold fsm_ok. simpl.
+    split; [lia|]. split; [discriminate|]. intros Hn. rewrite Hn in Hu. discriminate.
+  - simpl. unfold fsm_ok. simpl. split; [lia|]. split; [discriminate|auto].
+Qed.
+
+Lemma sess_restore_fsm_ok : forall addr d1 d2, fsm_ok (sess_restore repaired addr d1 d2).
+Proof.
+  intros addr d1 d2. unfold sess_restore. cbn [f_restore f_rguard repaired orb].
+  destruct (usable (Some addr)); unfold fsm_ok; simpl; (split; [lia|]); split; auto; discriminate.
+Qed.
+
+(* an open IPCP always goes with the assigned address as session address *)
+Lemma open_has_assigned : forall s, sess_ok s -> fsm_ok s -> s_open s = true ->
+  usable (ic_assigned (s_cfg s)) = true /\ to4o (s_addr s) = ic_assigned (s_cfg s) /\ s_fsm s = 9%N.
+Proof.
+  intros s Hok (F1 & F2 & F3) Hop. specialize (F2 Hop).
+  destruct Hok as [(I1 & _)|Hinv]; [rewrite I1 in F2; discriminate|].
+  split; [apply usable_assigned_of_inv; exact Hinv|]. split; [|exact F2].
+  destruct Hinv as (v & Hv & _ & _ & Ha & _). rewrite Hv.
+  destruct Ha as [Ha|(a & Ha & Hto)]; [|rewrite Ha; exact Hto].
+  destruct (F3 Ha) as [X|X]; rewrite X in F2; discriminate.
+Qed.
+
 (* ------------------------------------------------------------------ IPv6CP session: identity on the wire *)
+(* either negotiating / open with our outstanding request announcing the identifier we compare with, or
+   Starting (after an LCP renegotiation, before the next startNCP), where nothing is ever sent *)
 Definition v6_inv (s : v6sess) : Prop :=
-  vs_last s = v6_build (vs_obj s) /\ In (vs_fsm s) [6; 7; 8; 9]%N.
-Definition is_v6start (e : v6ev) : bool := match e with V6Start _ => true | _ => false end.
+  (vs_last s = v6_build (vs_obj s) /\ In (vs_fsm s) [6; 7; 8; 9]%N) \/ vs_fsm s = 1%N.
 
 Lemma v6_build_same : forall o o', vo_local o' = vo_local o -> vo_rej o' = vo_rej o -> v6_build o' = v6_build o.
 Proof. intros o o' H1 H2. unfold v6_build. rewrite H1, H2. reflexivity. Qed.
@@ -1465,112 +1773,99 @@ Proof.
   unfold v6_learn_opt, iid_option. simpl. destruct (Nat.eqb (length (vo_local o)) 8); simpl; auto.
 Qed.
 
-Lemma v6_learn_rej : forall os o, vo_rej (fold_left v6_learn_opt os o) = vo_rej o.
-Proof.
-  induction os as [|x os IH]; intros o; simpl; auto. rewrite IH. unfold v6_learn_opt.
-  destruct (N.eqb (o_type x) 1 && Nat.eqb (length (o_data x)) 8); reflexivity.
-Qed.
-
 Lemma v6_start_inv : forall r m, v6_inv (fst (v6sess_step (v6sess0 r) (V6Start m))).
-Proof. intros r m. unfold v6_inv. simpl. split; auto. Qed.
+Proof. intros r m. left. simpl. split; auto. Qed.
 
-Lemma v6sess_step_inv : forall s e, is_v6start e = false -> v6_inv s -> v6_inv (fst (v6sess_step s e)).
+Lemma v6sess_step_inv : forall s e, v6_inv s -> v6_inv (fst (v6sess_step s e)).
 Proof.
-  intros s e He [HL HS]. unfold v6_inv.
-  assert (Hreq : forall id wire orc,
-    let '(a, st', p') := ipv6cp_input (vo_local (vs_obj s)) (vs_fsm s) (vo_peer (vs_obj s)) orc id wire in
-    v6_next (mkv6obj (vo_local (vs_obj s)) (vo_rej (vs_obj s)) p') a (vs_last s) =
-      v6_build (mkv6obj (vo_local (vs_obj s)) (vo_rej (vs_obj s)) p') /\ In st' [6; 7; 8; 9]%N).
-  { intros id wire orc. unfold ipv6cp_input.
-    destruct (parse_wire wire) as [os| | |];
-      try (split; [unfold v6_next; simpl; rewrite HL; apply v6_build_same; reflexivity|exact HS]).
-    set (r := v6_res (ipv6cp_req (vo_local (vs_obj s)) (vo_peer (vs_obj s)) orc os)).
-    simpl in HS. unfold v6_next.
-    destruct HS as [H|[H|[H|[H|[]]]]]; rewrite <- H; unfold rcr_event, reply;
-      (destruct (is_good r); [|destruct (has_rej r)]); simpl;
-      try rewrite HL; (split; [try apply v6_build_same; reflexivity|auto 6]). }
-  destruct e as [m|id wire orc|id orc|  |w|w]; [discriminate| | | | |]; cbn [v6sess_step].
-  - specialize (Hreq id wire orc). destruct (ipv6cp_input _ _ _ _ _ _) as [[a st'] p']. simpl. exact Hreq.
-  - specialize (Hreq id (serialize_options (vs_last s)) orc).
-    destruct (ipv6cp_input _ _ _ _ _ _) as [[a st'] p']. simpl. exact Hreq.
-  - simpl. rewrite HL. destruct (v6_learn_build (vs_obj s)) as [E1 E2].
-    assert (B : v6_build (fold_left v6_learn_opt (v6_build (vs_obj s)) (vs_obj s)) = v6_build (vs_obj s))
-      by (apply v6_build_same; auto).
-    simpl in HS. unfold v6_next.
-    destruct HS as [H|[H|[H|[H|[]]]]]; rewrite <- H; simpl; rewrite ?B; auto 6.
-  - simpl. simpl in HS. unfold v6_next.
-    destruct HS as [H|[H|[H|[H|[]]]]]; rewrite <- H; simpl; auto 6.
-  - simpl. simpl in HS. unfold v6_next.
-    destruct HS as [H|[H|[H|[H|[]]]]]; rewrite <- H; simpl; auto 6.
+  intros s e [[HL HS]|H1].
+  - (* negotiating / open *)
+    assert (Hreq : forall id wire orc,
+      let '(a, st', p') := ipv6cp_input (vo_local (vs_obj s)) (vs_fsm s) (vo_peer (vs_obj s)) orc id wire in
+      v6_next (mkv6obj (vo_local (vs_obj s)) (vo_rej (vs_obj s)) p') a (vs_last s) =
+        v6_build (mkv6obj (vo_local (vs_obj s)) (vo_rej (vs_obj s)) p') /\ In st' [6; 7; 8; 9]%N).
+    { intros id wire orc. unfold ipv6cp_input.
+      destruct (parse_wire wire) as [os| | |];
+        try (split; [unfold v6_next; simpl; rewrite HL; apply v6_build_same; reflexivity|exact HS]).
+      set (r := v6_res (ipv6cp_req (vo_local (vs_obj s)) (vo_peer (vs_obj s)) orc os)).
+      simpl in HS. unfold v6_next.
+      destruct HS as [H|[H|[H|[H|[]]]]]; rewrite <- H; unfold rcr_event, reply;
+        (destruct (is_good r); [|destruct (has_rej r)]); simpl;
+        try rewrite HL; (split; [try apply v6_build_same; reflexivity|auto 6]). }
+    destruct e as [m| |id wire orc|id orc|  |w|w]; cbn [v6sess_step].
+    + left. simpl in HS. destruct HS as [H|[H|[H|[H|[]]]]]; rewrite <- H; simpl; auto.
+    + right. simpl in HS. destruct HS as [H|[H|[H|[H|[]]]]]; rewrite <- H; reflexivity.
+    + left. specialize (Hreq id wire orc). destruct (ipv6cp_input _ _ _ _ _ _) as [[a st'] p']. simpl. exact Hreq.
+    + left. specialize (Hreq id (serialize_options (vs_last s)) orc).
+      destruct (ipv6cp_input _ _ _ _ _ _) as [[a st'] p']. simpl. exact Hreq.
+    + left. simpl. rewrite HL. destruct (v6_learn_build (vs_obj s)) as [E1 E2].
+      assert (B : v6_build (fold_left v6_learn_opt (v6_build (vs_obj s)) (vs_obj s)) = v6_build (vs_obj s))
+        by (apply v6_build_same; auto).
+      simpl in HS. unfold v6_next.
+      destruct HS as [H|[H|[H|[H|[]]]]]; rewrite <- H; simpl; rewrite ?B; auto 6.
+    + left. simpl. simpl in HS. unfold v6_next.
+      destruct HS as [H|[H|[H|[H|[]]]]]; rewrite <- H; simpl; auto 6.
+    + left. simpl. simpl in HS. unfold v6_next.
+      destruct HS as [H|[H|[H|[H|[]]]]]; rewrite <- H; simpl; auto 6.
+  - (* Starting *)
+    destruct e as [m| |id wire orc|id orc|  |w|w]; cbn [v6sess_step]; rewrite ?H1.
+    + left. simpl. auto.
+    + right. reflexivity.
+    + right. unfold ipv6cp_input. rewrite ?H1. destruct (parse_wire wire); reflexivity.
+    + right. unfold ipv6cp_input. rewrite ?H1. destruct (parse_wire _); reflexivity.
+    + right. reflexivity.
+    + right. reflexivity.
+    + right. reflexivity.
 Qed.
 
-Lemma v6sess_run_inv : forall es s, forallb (fun e => negb (is_v6start e)) es = true ->
-  v6_inv s -> v6_inv (v6sess_run s es).
+Lemma v6sess_run_inv : forall es s, v6_inv s -> v6_inv (v6sess_run s es).
 Proof.
-  induction es as [|e es IH]; intros s H Hi; simpl in *; auto.
-  apply andb_true_iff in H. destruct H as [H1 H2]. apply IH; auto. apply v6sess_step_inv; auto.
-  destruct (is_v6start e); [discriminate|reflexivity].
+  induction es as [|e es IH]; intros s Hi; simpl in *; auto. apply IH. apply v6sess_step_inv; auto.
 Qed.
 
-(* after startNCP, whatever the subscriber sends: what our outstanding Configure-Request announces is the
-   identifier ProcessConfReq compares with; so an identifier we have on the wire is never acknowledged *)
+(* after startNCP, whatever the subscriber sends and however often LCP is renegotiated and the session
+   re-authenticated: an identifier our outstanding Configure-Request announces is never acknowledged *)
 Lemma v6_wire_identity : forall r m es s,
-  forallb (fun e => negb (is_v6start e)) es = true ->
   s = v6sess_run (fst (v6sess_step (v6sess0 r) (V6Start m))) es ->
-  vs_last s = v6_build (vs_obj s) /\
-  forall e acts id' os, is_v6start e = false -> snd (v6sess_step s e) = acts -> In (Sca id' os) acts ->
+  forall e acts id' os, snd (v6sess_step s e) = acts -> In (Sca id' os) acts ->
+    vs_last s = v6_build (vs_obj s) /\
     forall o x, In o os -> In x (vs_last s) -> o_data o <> o_data x.
 Proof.
-  intros r m es s Hes ->. set (s := v6sess_run _ es).
-  pose proof (v6sess_run_inv es _ Hes (v6_start_inv r m)) as [HL HS]. fold s in HL, HS.
-  split; [exact HL|].
-  intros e acts id' os He Hacts Hs o x Ho Hx.
-  assert (Hx' : o_data x = vo_local (vs_obj s)).
-  { rewrite HL in Hx. unfold v6_build in Hx. destruct (negb _); [|contradiction].
-    destruct Hx as [<-|[]]. reflexivity. }
-  rewrite Hx'.
+  intros r m es s ->. set (s := v6sess_run _ es).
+  pose proof (v6sess_run_inv es _ (v6_start_inv r m)) as Hinv. fold s in Hinv.
+  intros e acts id' os Hacts Hs.
+  assert (Hnosca : forall st i, no_sca (fst (rca_event st i)) /\ no_sca (fst (rcn_event st i))).
+  { intros st i. split; [apply no_sca_rca|apply no_sca_rcn]. }
   assert (Hreq : forall id wire orc a st' p',
             ipv6cp_input (vo_local (vs_obj s)) (vs_fsm s) (vo_peer (vs_obj s)) orc id wire = (a, st', p') ->
-            In (Sca id' os) a -> o_data o <> vo_local (vs_obj s)).
-  { intros id wire orc a st' p' Hin Ha.
+            In (Sca id' os) a -> forall o, In o os -> o_data o <> vo_local (vs_obj s)).
+  { intros id wire orc a st' p' Hin Ha o Ho.
     destruct (ipv6cp_wire_ack _ _ _ _ _ _ _ _ _ _ _ Hin Ha) as (_ & _ & A).
     destruct (A o Ho) as (_ & _ & _ & _ & N). exact N. }
-  assert (Hnosca : forall st i, ~ In (Sca id' os) (fst (rca_event st i)) /\ ~ In (Sca id' os) (fst (rcn_event st i))).
-  { intros st i. unfold rca_event, rcn_event. split;
-      repeat match goal with |- context [match ?x with _ => _ end] => destruct x end; simpl; intuition congruence. }
-  destruct e as [m'|id wire orc|id orc| |w|w]; [discriminate| | | | |]; cbn [v6sess_step] in Hacts.
-  - destruct (ipv6cp_input (vo_local (vs_obj s)) (vs_fsm s) (vo_peer (vs_obj s)) orc id wire) as [[a st'] p'] eqn:E.
-    simpl in Hacts. subst acts. eapply Hreq; eauto.
-  - destruct (ipv6cp_input (vo_local (vs_obj s)) (vs_fsm s) (vo_peer (vs_obj s)) orc id
-                (serialize_options (vs_last s))) as [[a st'] p'] eqn:E.
-    simpl in Hacts. subst acts. eapply Hreq; eauto.
-  - simpl in Hacts. subst acts. exfalso. eapply (proj1 (Hnosca _ _)); eauto.
-  - simpl in Hacts. subst acts. exfalso. eapply (proj2 (Hnosca _ _)); eauto.
-  - simpl in Hacts. subst acts. exfalso. eapply (proj2 (Hnosca _ _)); eauto.
+  destruct Hinv as [[HL HS]|H1].
+  - split; [exact HL|]. intros o x Ho Hx.
+    assert (Hx' : o_data x = vo_local (vs_obj s)).
+    { rewrite HL in Hx. unfold v6_build in Hx. destruct (negb _); [|contradiction].
+      destruct Hx as [<-|[]]. reflexivity. }
+    rewrite Hx'.
+    destruct e as [m'| |id wire orc|id orc| |w|w]; cbn [v6sess_step] in Hacts.
+    + exfalso. destruct (down_event (vs_fsm s)) as [a1 st1] eqn:E1. destruct (up_open st1) as [a2 st2] eqn:E2.
+      simpl in Hacts. subst acts. apply in_app_or in Hs. destruct Hs as [Hs|Hs].
+      * pose proof (no_sca_down (vs_fsm s)) as X. rewrite E1 in X. eapply X; exact Hs.
+      * pose proof (no_sca_up_open st1) as X. rewrite E2 in X. eapply X; exact Hs.
+    + exfalso. simpl in Hacts. subst acts. eapply no_sca_down; exact Hs.
+    + destruct (ipv6cp_input (vo_local (vs_obj s)) (vs_fsm s) (vo_peer (vs_obj s)) orc id wire) as [[a st'] p'] eqn:E.
+      simpl in Hacts. subst acts. eapply Hreq; eauto.
+    + destruct (ipv6cp_input (vo_local (vs_obj s)) (vs_fsm s) (vo_peer (vs_obj s)) orc id
+                  (serialize_options (vs_last s))) as [[a st'] p'] eqn:E.
+      simpl in Hacts. subst acts. eapply Hreq; eauto.
+    + simpl in Hacts. subst acts. exfalso. eapply (proj1 (Hnosca _ _)); eauto.
+    + simpl in Hacts. subst acts. exfalso. eapply (proj2 (Hnosca _ _)); eauto.
+    + simpl in Hacts. subst acts. exfalso. eapply (proj2 (Hnosca _ _)); eauto.
+  - (* Starting: nothing is acknowledged at all *)
+    exfalso. destruct e as [m'| |id wire orc|id orc| |w|w]; cbn [v6sess_step] in Hacts; rewrite ?H1 in Hacts;
+      simpl in Hacts; subst acts; simpl in Hs; try contradiction;
+      try (destruct Hs as [Hs|[]]; discriminate Hs);
+      try (unfold ipv6cp_input in Hs; rewrite ?H1 in Hs; destruct (parse_wire _); simpl in Hs; contradiction).
 Qed.
 
-(* ------------------------------------------------------------------ restored sessions *)
-Lemma sess_restore_inv : forall addr d1 d2, usable (Some addr) = true -> sess_inv (sess_restore repaired addr d1 d2).
-Proof.
-  intros addr d1 d2 Hu. destruct (usable_spec _ Hu) as (v & Hv & Hl & Hz). simpl in Hv.
-  exists v. simpl. rewrite Hv. repeat split; auto. right. exists addr. auto.
-Qed.
-
-Lemma restored_adopts_only_assigned : forall addr d1 d2 es,
-  usable (Some addr) = true ->
-  let s := sess_run repaired (sess_restore repaired addr d1 d2) es in
-  (s_fsm s = 0%N /\ s_addr s = None /\ s_open s = false) \/
-  (usable (ic_assigned (s_cfg s)) = true /\
-   (s_addr s = None \/ to4o (s_addr s) = ic_assigned (s_cfg s)) /\
-   (pp_addr (s_peer s) = None \/ pp_addr (s_peer s) = ic_assigned (s_cfg s))).
-Proof.
-  intros addr d1 d2 es Hu s.
-  pose proof (sess_run_ok es _ (or_intror (sess_restore_inv addr d1 d2 Hu))) as H. fold s in H.
-  destruct H as [H|H]; [left; exact H|right].
-  split; [apply usable_assigned_of_inv; exact H|].
-  destruct H as (v & Hv & _ & _ & Ha & Hp). rewrite Hv. split; [|exact Hp].
-  destruct Ha as [Ha|(a & Ha & Hto)]; [left; exact Ha|right; rewrite Ha; exact Hto].
-Qed.
-
-Lemma restored_assigned : forall addr d1 d2, ic_assigned (s_cfg (sess_restore repaired addr d1 d2)) = to4 addr.
-Proof. reflexivity. Qed.
